@@ -1,15 +1,17 @@
-import sys, json, time
-sys.path.insert(0,'/verif')
+"""developer helper: python tools/prove_spec.py specs.<module> [function-key substring]   (PYVC_ONLY=<obligation substrings> filters)"""
+import sys, json, time, os
+sys.path.insert(0, os.path.dirname(os.path.dirname(os.path.abspath(__file__))))
 from pyvc.run import prove_functions
 from pyvc.spec import REG
 import importlib
-mod=sys.argv[1]; importlib.import_module(mod)
-pat=sys.argv[2] if len(sys.argv)>2 else ''
-keys=[k for k in REG.fns if pat in k]
-t=time.time()
-rep=prove_functions([mod], keys, procs=8)
+mod = sys.argv[1]; importlib.import_module(mod)
+pat = sys.argv[2] if len(sys.argv) > 2 else ''
+keys = [k for k in REG.fns if pat in k]
+t = time.time()
+rep = prove_functions([mod], keys, procs=14)
 from collections import Counter
-print(Counter(o['status'] for o in rep['obligations']), 'wall', round(time.time()-t,1), 'max', max([o.get('time',0) for o in rep['obligations']] or [0]))
+print(Counter(o['status'] for o in rep['obligations']), 'wall', round(time.time() - t, 1), 'max', max([o.get('time', 0) for o in rep['obligations']] or [0]))
 for o in rep['obligations']:
-    if o['status']!='discharged': print(o['status'], o['name'], o.get('time'), (o.get('detail') or '')[:400], json.dumps(o.get('counterexample') or o.get('candidate'))[:300])
-print(rep['defects'], rep['hygiene'])
+    if o['status'] != 'discharged':
+        print(o['status'], o['name'], round(o.get('time') or 0, 1), (o.get('detail') or '')[:400].replace('\n', ' '), json.dumps(o.get('counterexample') or o.get('candidate'))[:300])
+print(str(rep['defects'])[-1500:], rep['hygiene'])
